@@ -2,6 +2,10 @@
 harness-set names defined in lib/kani_sets.py."""
 
 PROPS = {
+    'C15': {'units': [], 'kani': 'C15', 'level': 'proof',
+            'assumptions': ['string contents fixed in the harnesses: accessor identity is checked by pointer, which is independent of content',
+                            'HashMap/HashSet fields are empty tables with fixed hash keys (RandomState::new needs a syscall Kani cannot model)'],
+            'bounded': ['player lists of exactly one element (the players() adaptor is a map over the list)']},
     'C02': {'units': ['U-VALVE'], 'level': 'proof',
             'assumptions': ['UTF-8 transcoding abstract (utf8 axioms)', 'bzip2/crc32 bodies assumed', 'network exchange outcome uninterpreted (a2s_exchange)']},
     'C06': {'units': ['U-UNREAL'], 'level': 'proof',
